@@ -184,7 +184,7 @@ class Gen:
         depth = r.choice((1, 1, 2, 2, 3))
         if r.random() < 0.5 and self.names:
             base = r.choice(self.names)
-            if base.lower() != "inbox" and base.count("/") < 2:
+            if base.count("/") < 2 and (base.lower() != "inbox" or r.random() < self.p.get("inbox_children_p", 0.0)):
                 return base + "/" + r.choice(alpha[:6])
         return "/".join(r.choice(alpha[:6]) for _ in range(depth))
 
